@@ -108,6 +108,13 @@ class SchedPool:
 
     def map(self, fn, it, chunksize=None):
         pairs, dl = CTL.run(fn, list(it), True)
+        # the real map() keeps the exception of the task that failed *first in time* (completion order),
+        # not of the first failing task in submission order - that is imap()'s behaviour
+        byidx = dict(pairs)
+        for i in CTL.executed[-1]:
+            if not byidx[i][0]:
+                dl.append(i)
+                raise byidx[i][1]
         return list(_deliver(pairs, dl))
 
     def starmap(self, fn, it, chunksize=None):
